@@ -27,7 +27,7 @@ MIN_NONTRIVIAL = {'quick': 5000, 'thorough': 50000}
 
 SYMS = [('set', 'a'), ('set', 'b'), ('upd', 'a'), ('upd', 'b'), ('updkw', 'a'), ('updempty', None),
         ('updbad', 'a'), ('pop', 'a'), ('pop', 'b'), ('popd', 'a'), ('popd', 'b'), ('popitem', None),
-        ('del', 'a'), ('del', 'b'), ('upd2', None), ('popsame', 'a'), ('setsingleton', 'a')]
+        ('del', 'a'), ('del', 'b'), ('upd2', None), ('popsame', 'a'), ('setsingleton', 'a'), ('upditer', 'b')]
 STARTS = [('Array', False), ('Array', True), ('RaggedArray', False), ('RaggedArray', True),
           ('Array', 'empty'), ('RaggedArray', 'empty')]
 
@@ -180,6 +180,10 @@ def run_case(case, env):
                 elif op == 'upd2':
                     newmodel.update({'a': v, 'b': [v]})
                     call = lambda: md.update({'a': v, 'b': [v]})
+                elif op == 'upditer':       # dict.update also takes a (one-shot) iterable of pairs, with keywords
+                    newmodel[k] = v
+                    newmodel['kw'] = 1
+                    call = lambda: md.update(zip([k], [v]), kw=1)
                 elif op == 'updempty':
                     call = lambda: md.update({})
                 elif op == 'updbad':
